@@ -207,6 +207,10 @@ M("c14-snapshot-revert", "C14", "flexstack/facilities/local_dynamic_map/ldm_serv
 M("c16-snapshot-revert", "C16", "flexstack/facilities/local_dynamic_map/ldm_service.py",
   "            if subscription not in self.subscriptions:\n                return\n            last_checked = self.last_checked_subscriptions_time.get(subscription)", "            last_checked = self.last_checked_subscriptions_time.get(subscription)",
   "revert: a subscription removed by another thread during an attendance pass is still notified by it")
+M("c15-cbf-token-revert", "C15", "flexstack/geonet/router.py",
+  "            if token is not None and getattr(timer, \"cbf_token\", token) is not token:\n", "            if False:\n",
+  "revert: an expired contention timer transmits whatever copy is buffered under its key")
+
 
 # ---------------------------------------------------------------- C09
 M("c09-no-sig", "C09", "flexstack/security/certificate.py",
